@@ -91,13 +91,17 @@ def check(case, rec):
         if writer == "convert":
             # JSON -> `biom convert --to-hdf5`; the command stamps its own
             # generated-by / date and defaults the type to "Table"
-            from biom.cli.table_converter import _convert
+            from biom.cli.table_converter import convert
             from biom import load_table
-            import json as _json
             jpath = os.path.join(d, "in.json")
             c01.write(t, jpath + ".h5", dict(case, writer="to_hdf5"))
-            src_in = load_table(jpath + ".h5")
-            _convert(src_in, path, to_hdf5=True)
+            try:
+                convert.main(["-i", jpath + ".h5", "-o", path, "--to-hdf5"],
+                             standalone_mode=False)
+            except SystemExit as e:
+                if e.code not in (0, None):
+                    raise Violation("cli-exit", "convert exited %r" %
+                                    (e.code,))
             t = load_table(jpath + ".h5")
             src = observe.snapshot(t)
             gen_by = None
